@@ -187,6 +187,8 @@ def plain_items(content):
             out.append(('c', value[0], value[-1]))
         elif type_ == 'counters()':
             out.append(('cs', value[0], value[1], value[-1]))
+        elif type_.startswith('target-counter') and value[-1] is None:
+            raise Unsupported('counter style None')     # what get_target stored before 9677ed2
         elif type_ == 'target-counter()':
             out.append(('tc', anchor_name_from_token(value[0]) or '', value[1], value[-1]))
         elif type_ == 'target-counters()':
